@@ -52,11 +52,11 @@ type Axiom struct {
 
 // Background holds what every script may need.
 type Background struct {
-	Funs   map[string]FunSig
-	Axioms []*Axiom
-	Types  []string // Type constants (pairwise distinct)
-	Consts map[string]Sort // always-declared constants (sentinels etc.)
-	Distinct [][]string // groups of pairwise-distinct Ref constants
+	Funs     map[string]FunSig
+	Axioms   []*Axiom
+	Types    []string        // Type constants (pairwise distinct)
+	Consts   map[string]Sort // always-declared constants (sentinels etc.)
+	Distinct [][]string      // groups of pairwise-distinct Ref constants
 }
 
 func NewBackground() *Background {
